@@ -96,7 +96,7 @@ pub fn case_lookup<const COLS: usize>(seed: u64, case: u64, quick: bool) -> Acc 
         return acc;
     }
     // ---- negatives ---------------------------------------------------------------------------
-    let knobs = StarkProverKnobs { skip_constraint_check: true, lenient_truncation: true, aux_edits: vec![] };
+    let knobs = StarkProverKnobs { skip_constraint_check: true, lenient_truncation: true, aux_edits: vec![], aux_trace: None };
     set_knobs(knobs.clone());
     let reps = if quick { 1 } else { 2 };
     for _ in 0..reps {
@@ -130,6 +130,21 @@ pub fn case_lookup<const COLS: usize>(seed: u64, case: u64, quick: bool) -> Acc 
                 let (v, _) = violating(&spec, &t2);
                 judge(&mut acc, if v { "looking_value_plus_one" } else { "looking_value_plus_one:benign" }, v, &attempt(&stark, &config, &t2), &ctx, json!({"lookup": li}));
             }
+        }
+        // 4b. a looking value leaves the table while the prover keeps the helper columns of the
+        //     original trace (only the helper-column constraints stand in the way)
+        for (li, l) in spec.lookups.iter().enumerate() {
+            // the last looking column sits in the last (possibly partial) helper batch
+            let k = if rng.gen_bool(0.5) { l.looking.len() - 1 } else { rng.gen_range(0..l.looking.len()) };
+            let col = l.looking[k].local.first().or(l.looking[k].next.first()).map(|x| x.0).unwrap();
+            let row = rng.gen_range(0..n);
+            let mut t2 = trace.clone();
+            t2[col][row] = rng.gen_range(0..P);
+            let (v, _) = violating(&spec, &t2);
+            set_knobs(StarkProverKnobs { aux_trace: Some(trace.clone()), ..knobs.clone() });
+            let out = attempt(&stark, &config, &t2);
+            set_knobs(knobs.clone());
+            judge(&mut acc, if v { "looking_value_altered+helper_columns_of_the_original_trace" } else { "looking_value_altered+helper_columns_of_the_original_trace:benign" }, v, &out, &ctx, json!({"lookup": li, "looking_column_index": k, "of": l.looking.len(), "row": row}));
         }
         // 5. filter flipped
         let fc = COLS - 1;
